@@ -44,7 +44,37 @@ def snapshot(ts):
     return [(t.data.tobytes(), str(t.dtype), t.shape, None if t.grad is None else (t.grad.tobytes(), str(t.grad.dtype), t.grad.shape), t.creator, len(t._ops), t.constant, t.data.flags.writeable) for t in ts]
 
 
+def foreign(t):
+    """an archive written with numpy.savez whose `grad` entry does not already match `data`: load == tensor(data) followed by backward(grad)
+    (Model/IO.v), so the gradient is cast to the data's dtype, broadcast to its shape, and a seed that does not broadcast is refused"""
+    reset_global_state()
+    nd = int(np.prod(t["shape"])) if t["shape"] else 1
+    data = (np.arange(nd) % 5 - 2).astype(t["dtype"]).reshape(t["shape"])
+    g = np.array(t["grad_vals"], dtype=t["grad_dtype"]).reshape(t["grad_shape"])
+    f = io.BytesIO()
+    np.savez(f, data=data, grad=g)
+    f.seek(0)
+    try:
+        y = mg.load(f)
+    except Exception as e:
+        return {"oracle": [] if t["expect"] == "raise" else ["load raised %s: %s" % (exn_class(e), str(e)[:100])]}
+    fails = []
+    if t["expect"] == "raise":
+        return {"oracle": ["load accepted a gradient of shape %s for data of shape %s (backward would refuse this seed); loaded grad shape %s" % (g.shape, data.shape, None if y.grad is None else y.grad.shape)]}
+    if y.dtype != data.dtype or not np.array_equal(y.data, data):
+        fails.append("data differs")
+    if y.grad is None:
+        fails.append("the stored gradient was dropped")
+    else:
+        want = np.broadcast_to(g.astype(data.dtype), data.shape)
+        if y.grad.dtype != y.dtype or y.grad.shape != y.shape or not np.array_equal(y.grad, want):
+            fails.append("loaded gradient has dtype %s shape %s (tensor: %s %s) -- not what backward(grad) on the fresh leaf stores" % (y.grad.dtype, y.grad.shape, y.dtype, y.shape))
+    return {"oracle": fails, "has_grad": True, "float": True}
+
+
 def task(t):
+    if t.get("kind") == "foreign":
+        return foreign(t)
     reset_global_state()
     x, keep = build(t)
     before = snapshot(keep)
